@@ -310,7 +310,10 @@ def _weight_code_sum(codes: np.ndarray, weights: np.ndarray) -> int:
             return -1
         out += c * w
     # weight for the last code is always 1
-    return out + codes[-1]
+    last = codes[-1]
+    if last == -1:
+        return -1
+    return out + last
 
 
 @nb.njit(cache=True)
